@@ -6,6 +6,7 @@ Usage: `vmodel [--fixes <digits 0/1: f1 f2 f3 f4 f5 f2b f8 f10>]`.
 import Vibrato.Driver.Tok
 import Vibrato.Driver.Corpus
 import Vibrato.Driver.Rewriter
+import Vibrato.Driver.Image
 
 open Vibrato Vibrato.Driver
 
@@ -36,6 +37,7 @@ def stepLine (fx : Fixes) (st : DState) (line : String) : DState × String :=
     let spec := Rewriter.handle ("SPEC" :: inp)
     let same := Rewriter.handle ("SAMETRIE" :: inp)
     (st, s!"rewrite {id} MODEL {model} P C17={if spec == impl then "1" else "0"} SAMETRIE={same}")
+  | "image" :: id :: rest => (st, s!"image {id} MODEL {Image.handle (input rest)}")
   | "corpus" :: id :: rest => (st, s!"corpus {id} MODEL {Corpus.handle (input rest)}")
   | s :: id :: _ => (st, s!"{s} {id} MODEL unknown-stream")
   | _ => (st, "? ? MODEL badline")
